@@ -129,14 +129,35 @@ def finding (w : World) : Op → Option Finding
     else if s.rocks.any (fun r => rockNameInUse w r.1) then some .f2 else none
   | _ => none
 
+/-- preconditions of the three constructor-and-add calls (see `pre`) -/
+def preBasic (w : World) : Op → Bool
+  | .addRocktype nm _ => !rockNameInUse w nm
+  | .addBlock nm rock _ _ => (dget w.rocktype rock).isSome && !blockNameConnected w nm
+  | .addConnection n0 n1 _ => (dget w.block n0).isSome && (dget w.block n1).isSome && n0 != n1
+  | _ => false
+
+/-- every call that builds a second grid from its recipe is within its precondition -/
+def preAllBasic : World → List Op → Bool
+  | _, [] => true
+  | w, op :: r => preBasic w op && preAllBasic (stepBasic w op).w r
+
+/-- the rock type object `x` is used by a block of grid `g` -/
+def rockUsedIn (w : World) (g : Grid) (x : Nat) : Bool := g.blocklist.any fun b => (w.bk b).rock == x
+
+/-- for `g1 + g2`: no common block name, and a rock type of `g1` whose name also occurs in `g2` is
+    used by no block of `g1` -/
+def sumOK (w : World) (g1 g2 : Grid) : Bool :=
+  g1.blocklist.all (fun x => g2.blocklist.all fun y => w.bname x != w.bname y) &&
+  g1.rocktypelist.all (fun x => g2.rocktypelist.all fun y => w.rname x != w.rname y || !rockUsedIn w g1 x)
+
 /-- **Pre.**  The argument conditions under which `inv_step` is proved.  Each clause that is not
-    simply `true` is a place where the real code is run by the harness (facet `excluded_points`):
-    either the call is an argument error that no edit script would make (foreign objects, a
+    simply `true` is a place where the real code is run by the harness (corpus cases `misuse-…`,
+    `F1-…`): either the call is an argument error that no edit script would make (foreign objects, a
     connection from a block to itself, a name list that is not a permutation, a name map that is
     not one-to-one — the last is excluded by the property text itself), or it is one of F1–F3. -/
 def pre (w : World) : Op → Bool
   -- F2: the name is unregistered, or its rock type is used by no block
-  | .addRocktype nm _ => !rockNameInUse w nm
+  | .addRocktype nm tag => preBasic w (.addRocktype nm tag)
   -- F3
   | .deleteRocktype nm => !rockNameInUse w nm
   | .renameRocktype _ _ => true
@@ -144,11 +165,11 @@ def pre (w : World) : Op → Bool
   | .sortRocktypes => true
   -- misuse: the block's rock type must be one of the grid's rocktype objects;
   -- F1: the name is new, or the block it replaces has no connections
-  | .addBlock nm rock _ _ => (dget w.rocktype rock).isSome && !blockNameConnected w nm
+  | .addBlock nm rock vol centre => preBasic w (.addBlock nm rock vol centre)
   | .deleteBlock _ => true
   | .demoteBlock _ => true
   -- misuse: both blocks must be the grid's current objects, and different
-  | .addConnection n0 n1 _ => (dget w.block n0).isSome && (dget w.block n1).isSome && n0 != n1
+  | .addConnection n0 n1 p => preBasic w (.addConnection n0 n1 p)
   | .deleteConnection _ _ => true
   -- misuse: the block names must be a permutation of the grid's blocks, the connection names a
   -- permutation of its connections, each written in either orientation
@@ -162,16 +183,19 @@ def pre (w : World) : Op → Bool
     | none => true
     | some m1 => decide (w.blocklist.map fun b => mapName m1 (w.bname b)).Nodup
   | .minc _ => true
-  -- misuse: the second grid must be well formed and share no block name with this one;
+  -- misuse: the second grid must be well formed (built within the preconditions of the calls that
+  -- build it) and share no block name with this one (a connected common block: F1);
   -- F2: a common rock-type name must not be in use on the side that is replaced
   | .addGrid s left =>
-    specOK s && s.blocks.all (fun b => (dget w.block b.1).isNone) &&
-    (if left then s.rocks.all (fun r => !rockNameInUse w r.1)
-     else w.rocktypelist.all (fun r => !specRockUsed s (w.rname r)))
+    let (w1, other) := buildSpec w s
+    specOK s && preAllBasic (w.withGrid ⟨[], [], [], [], [], []⟩) (specOps s) &&
+    (if left then sumOK w1 w1.grid other else sumOK w1 other w1.grid)
   -- misuse: host must be a block of this grid and the other end a block of the sub-grid
   | .embed s host sub _ =>
-    specOK s && (dget w.block host).isSome && s.blocks.any (fun b => b.1 == sub) &&
-    s.rocks.all (fun r => !rockNameInUse w r.1)
+    let (w1, other) := buildSpec w s
+    specOK s && preAllBasic (w.withGrid ⟨[], [], [], [], [], []⟩) (specOps s) &&
+    (dget w.block host).isSome && (dget other.block sub).isSome &&
+    w1.rocktypelist.all (fun x => other.rocktypelist.all fun y => w1.rname x != w1.rname y || !rockUsedIn w1 w1.grid x)
 
 /-- what the driver reports about an operation in the state it is applied to -/
 def preClass (w : World) (op : Op) : String :=
